@@ -179,7 +179,14 @@ func c15ProbeOrder(m commservices.LockMap, settle, tmo time.Duration) (res c15Pr
 	return res
 }
 
-var c15NamePool = []string{"a", "b", "ab", "B", "_", "a0", "A", "z", "aa", "b_", "Z9", "res", "resource", "db", "\xc3\xa9", "a\x00", "~"}
+var c15NamePool = []string{"a", "b", "ab", "B", "_", "a0", "A", "z", "aa", "b_", "Z9", "res", "resource", "db", "\xc3\xa9", "a\x00", "~",
+	"@a", "@b", "a ", " a", "a/", "./a", "@res", "a.b"}
+
+// c15Aliases: spellings that a careless normalisation (trimming a marker or blanks, folding case, cleaning
+// a path) would map onto the plain name x. They are DIFFERENT resource names and must behave so.
+func c15Aliases(x string) []string {
+	return []string{"@" + x, x + " ", " " + x, strings.ToUpper(x), x + "/", "./" + x, x + "\x00", "@@" + x, x + ".", "/" + x}
+}
 
 func c15RandMap(rng *RNG, pool []string, maxSize int, pctW int) commservices.LockMap {
 	m := commservices.LockMap{}
@@ -628,6 +635,70 @@ func runC15Child(o *Out, rng *RNG, tier string, replay string) {
 			}
 		}
 		o.CountEval("b:"+fmt.Sprint(mapsDesc), shared)
+	}
+
+	// ---------- (ii'') look-alike names are different resources
+	for _, x := range []string{"a", "res", "db"} {
+		if hung {
+			break
+		}
+		for _, y := range c15Aliases(x) {
+			if y == x {
+				continue
+			}
+			for _, modes := range [][2]bool{{true, false}, {true, true}, {false, true}} {
+				desc := map[string]interface{}{"op": "alias", "names": strsBytes([]string{x, y}), "modes": modes}
+				// (a) one holder naming both never waits for itself
+				sm := mutex.NewSharedMutex()
+				got := make(chan struct{})
+				go func() {
+					h := sm.Lock(commservices.LockMap{x: modes[0], y: modes[1]})
+					h.Unlock()
+					close(got)
+				}()
+				select {
+				case <-got:
+					o.Stat("alias_single_ok")
+				case <-time.After(5 * time.Second):
+					hung = true
+					o.Fail("no_deadlock", fmt.Sprintf("a single holder of the map {%q:%v, %q:%v} never acquired its locks (the two names share one mutex)", x, modes[0], y, modes[1]), "alias-self-deadlock", desc)
+				}
+				o.CountEval(fmt.Sprintf("al1:%q:%q:%v", x, y, modes), true)
+				if hung {
+					break
+				}
+				// (b) writers of the two names are inside at the same time
+				sm = mutex.NewSharedMutex()
+				var inside int32
+				all := make(chan struct{})
+				giveup := make(chan struct{})
+				var wg sync.WaitGroup
+				for _, nm := range []string{x, y} {
+					wg.Add(1)
+					go func(nm string) {
+						defer wg.Done()
+						h := sm.Lock(commservices.LockMap{nm: commservices.LockRW})
+						if atomic.AddInt32(&inside, 1) == 2 {
+							close(all)
+						}
+						select {
+						case <-all:
+						case <-giveup:
+						}
+						h.Unlock()
+					}(nm)
+				}
+				select {
+				case <-all:
+					o.Stat("alias_pair_ok")
+				case <-time.After(3 * time.Second):
+					close(giveup)
+					o.Fail("no_serialisation", fmt.Sprintf("writers of the different names %q and %q were serialised against each other", x, y), "alias-serialised", desc)
+				}
+				wg.Wait()
+				o.CountEval(fmt.Sprintf("al2:%q:%q", x, y), true)
+			}
+		}
 	}
 
 	// ---------- (iii) lock-list parsing of pip:run
